@@ -25,3 +25,6 @@ func TestC14(t *testing.T) { C14.Run(t) }
 func TestC16(t *testing.T)          { RunC16(t) }
 func FuzzMessageCodec(f *testing.F) { fuzzMessageCodec(f) }
 func FuzzBurnCodec(f *testing.F)    { fuzzBurnCodec(f) }
+func TestC01(t *testing.T)         { RunC01(t) }
+func TestC01L2(t *testing.T)       { C01L2.Run(t) }
+func FuzzAttestation(f *testing.F) { fuzzAttestation(f) }
